@@ -72,7 +72,7 @@ def judge(w, data, step0_reqs):
     v = []
     fs = [f for f in frames(data) if f is not None]
     new = w.new_obs()
-    c = w.conns[0]
+    c = w.conn(0)
     for o in new:
         if o[0] == 'exc':
             v.append(V('exc', 'exception/%s/%s' % (o[1], o[3]), '%s: %s' % (o[3], o[4])))
@@ -116,7 +116,10 @@ def judge(w, data, step0_reqs):
                 v.append(V('effect', 'unjustified-success/%s%s' % (r.kind, '-q%d' % r.qos if r.kind == 'pub' else ''),
                            '%s request (id %r) succeeded on input %s' % (r.kind, r.msgId, data.hex())))
         elif o[0] == 'w':
+            resumed = step0_reqs['phase'] == 'connecting' and any(f['type'] == 'CONNACK' and f['rc'] == 0 for f in fs)
             for p in o[5]:
+                if resumed and p['type'] in ('SUBSCRIBE', 'UNSUBSCRIBE', 'PINGREQ'):
+                    continue        # an accepting CONNACK starts keepalive and resumes the carried-over session
                 if p['type'] in ('CONNECT', 'DISCONNECT', 'SUBSCRIBE', 'UNSUBSCRIBE', 'PINGREQ'):
                     v.append(V('effect', 'unjustified-write/%s' % p['type'], data.hex()))
     return v
@@ -124,7 +127,7 @@ def judge(w, data, step0_reqs):
 
 def run_one(profile, mode, base, data, persist):
     w = build_base(profile, mode, base)
-    c = w.conns[0]
+    c = w.conn(0)
     if c.lost or c.close_req is not None:
         return [], 'base-closed'
     pre = {'phase': w.phase(c), 'pubrec': set(r.idx for r in w.reqs if r.kind == 'pub' and r.acked('PUBREC')),
